@@ -1024,7 +1024,7 @@ class Window(Cumulative):
         ordering: typing.Optional[typing.Sequence['dsl.Ordering.Term']] = None,
         frame: typing.Optional = None,
     ):
-        return super().__new__(cls, function, tuple(partition), Ordering.make(*(ordering or [])), frame)
+        return super().__new__(cls, function, tuple(partition), tuple(Ordering.make(*(ordering or []))), frame)
 
     @property
     def kind(self) -> 'dsl.Any':
